@@ -25,6 +25,10 @@ type input struct {
 	Ctor   bool     `json:"ctor"`
 	Set    []string `json:"set"`
 	Method string   `json:"method"`
+	// Variant selects the argument values: 0 = all distinct tagged values (a permutation is
+	// visible); 1.. = boundary values (empty strings, zero / negative / equal integers, zero
+	// descriptor), so that a method that treats some argument value specially is visible.
+	Variant int `json:"variant,omitempty"`
 }
 
 type ctorErr struct{ name, repo string }
@@ -52,7 +56,29 @@ var (
 )
 
 // argument values by position, all distinct so that a permutation is visible
-func makeArg(t reflect.Type, i int) reflect.Value {
+var intVariants = [][]int64{nil, {0, -1}, {0, 0}, {-1, -1}, {1, 0}, {0, 1}, {-1, 0}, {7, 7}}
+
+func makeArg(t reflect.Type, i int, variant int, intIdx *int) reflect.Value {
+	if variant > 0 {
+		switch {
+		case t == descType:
+			if variant%2 == 1 {
+				return reflect.ValueOf(ociregistry.Descriptor{})
+			}
+			return reflect.ValueOf(ociregistry.Descriptor{MediaType: "m", Digest: "sha256:x", Size: -1})
+		case t.Kind() == reflect.String:
+			vals := []string{"", "a", "*", "arg", ""}
+			return reflect.ValueOf(vals[(variant+i)%len(vals)]).Convert(t)
+		case t.Kind() == reflect.Int64 || t.Kind() == reflect.Int:
+			iv := intVariants[variant%len(intVariants)]
+			if iv == nil {
+				iv = []int64{0, -1}
+			}
+			v := iv[*intIdx%len(iv)]
+			*intIdx++
+			return reflect.ValueOf(v).Convert(t)
+		}
+	}
 	switch {
 	case t == ctxType:
 		return reflect.ValueOf(context.Background())
@@ -194,8 +220,9 @@ func runCase(in input) (coq string, obsDesc string, passed []string) {
 	m := fv.MethodByName(in.Method)
 	mt := m.Type()
 	args := make([]reflect.Value, mt.NumIn())
+	intIdx := 0
 	for i := range args {
-		args[i] = makeArg(mt.In(i), i)
+		args[i] = makeArg(mt.In(i), i, in.Variant, &intIdx)
 		if i > 0 {
 			passed = append(passed, show(args[i]))
 		}
@@ -347,6 +374,21 @@ func main() {
 			}
 		}
 	}
+	// boundary argument values: the outcome may depend on the method's own field only,
+	// whatever the arguments are
+	for v := 1; v < len(intVariants); v++ {
+		for _, ctor := range []bool{false, true} {
+			for i, m := range methods {
+				nb := methods[(i+len(methods)-1)%len(methods)]
+				add(input{Nil: true, Ctor: ctor, Method: m, Variant: v}, "args-nil")
+				add(input{Ctor: ctor, Method: m, Variant: v}, "args-none")
+				add(input{Ctor: ctor, Set: []string{m}, Method: m, Variant: v}, "args-own")
+				add(input{Ctor: ctor, Set: without(m), Method: m, Variant: v}, "args-allbutown")
+				add(input{Ctor: ctor, Set: []string{nb}, Method: m, Variant: v}, "args-neighbour")
+				add(input{Ctor: ctor, Set: append([]string{}, methods...), Method: m, Variant: v}, "args-all")
+			}
+		}
+	}
 	// random subsets
 	rnd := cfg.Rand()
 	n := 400
@@ -361,7 +403,7 @@ func main() {
 				set = append(set, f)
 			}
 		}
-		add(input{Ctor: rnd.Intn(2) == 0, Set: set, Method: methods[rnd.Intn(len(methods))]}, "random")
+		add(input{Ctor: rnd.Intn(2) == 0, Set: set, Method: methods[rnd.Intn(len(methods))], Variant: rnd.Intn(len(intVariants))}, "random")
 	}
 	if err := out.Flush(); err != nil {
 		panic(err)
